@@ -30,6 +30,7 @@ import (
 	"testing"
 
 	sdk "github.com/cosmos/cosmos-sdk/types"
+	sdkerrors "github.com/cosmos/cosmos-sdk/types/errors"
 	banktypes "github.com/cosmos/cosmos-sdk/x/bank/types"
 	distrtypes "github.com/cosmos/cosmos-sdk/x/distribution/types"
 	minttypes "github.com/cosmos/cosmos-sdk/x/mint/types"
@@ -206,6 +207,11 @@ func errk(err error) int {
 	return 2
 }
 
+func isFunds(err error) bool {
+	var e1 cltypes.InsufficientUserBalanceError
+	return errors.Is(err, sdkerrors.ErrInsufficientFunds) || errors.As(err, &e1)
+}
+
 func etxt(err error) string {
 	if err == nil {
 		return ""
@@ -314,7 +320,7 @@ func (p clproxy) GetWhitelistedAddresses(ctx sdk.Context) []string {
 
 func (p proxy) richFunds() sdk.Coins {
 	cs := sdk.Coins{}
-	big := osmomath.NewIntFromBigInt(new(big.Int).Lsh(big.NewInt(1), 120))
+	big := osmomath.NewIntFromBigInt(new(big.Int).Lsh(big.NewInt(1), 250)) // above anything a pool can ask for that still fits an Int
 	for _, d := range p.w.denoms {
 		cs = cs.Add(sdk.NewCoin(d, big))
 	}
@@ -343,6 +349,11 @@ func (p proxy) SwapExactAmountIn(ctx sdk.Context, sender sdk.AccAddress, pool pm
 		out, err := p.PoolModuleI.SwapExactAmountIn(pctx, w.rich, pp, tokenIn, tokenOutDenom, osmomath.ZeroInt(), spread)
 		if err != nil {
 			r.PErr = 2
+			if isFunds(err) { // even the rich account cannot pay: take the pool's own quote
+				if q, e := p.PoolModuleI.CalcOutAmtGivenIn(pctx, pp, tokenIn, tokenOutDenom, spread); e == nil {
+					r.PErr, r.P1, r.P2 = 0, tokenIn.Amount.String(), q.Amount.String()
+				}
+			}
 			return
 		}
 		r.P1 = b0.Sub(bk.GetBalance(pctx, w.rich, tokenIn.Denom).Amount).String()
@@ -381,10 +392,15 @@ func (p proxy) SwapExactAmountOut(ctx sdk.Context, sender sdk.AccAddress, pool p
 			return
 		}
 		b0 := bk.GetBalance(pctx, w.rich, tokenOut.Denom).Amount
-		lim := osmomath.NewIntFromBigInt(new(big.Int).Lsh(big.NewInt(1), 250))
+		lim := osmomath.NewIntFromBigInt(new(big.Int).Lsh(big.NewInt(1), 255))
 		in, err := p.PoolModuleI.SwapExactAmountOut(pctx, w.rich, pp, tokenInDenom, lim, tokenOut, spread)
 		if err != nil {
 			r.PErr = 2
+			if isFunds(err) || errk(err) == 1 { // the rich account cannot pay / the answer exceeds 2^255: take the pool's own quote
+				if q, e := p.PoolModuleI.CalcInAmtGivenOut(pctx, pp, tokenOut, tokenInDenom, spread); e == nil {
+					r.PErr, r.P1, r.P2 = 0, q.Amount.String(), tokenOut.Amount.String()
+				}
+			}
 			return
 		}
 		r.P1 = in.String()
